@@ -19,13 +19,22 @@ func TestMain(m *testing.M) { ev.Main(m, "C01") }
 
 type Case struct {
 	P *model.Project `json:"project"`
+	// Prelude: sut.Disturb sequence run before the case (0 = none)
+	Prelude int `json:"prelude,omitempty"`
 }
+
+func genPCase(t *rapid.T) Case { return Case{P: genProject(t)} }
 
 func genProject(t *rapid.T) *model.Project {
 	return gen.Project(t, gen.ProjectOpts{RegexType: true, Container: true})
 }
 
 func oracle(c Case) *ev.Verdict {
+	if c.Prelude != 0 {
+		// the answer for a project does not depend on what the process handled before it
+		sut.Pristine()
+		sut.Disturb(c.Prelude)
+	}
 	p := c.P
 	if p == nil || p.Root == nil {
 		return nil
@@ -150,10 +159,22 @@ func TestPropSharedTypes(t *testing.T) {
 }
 
 func registerAll() {
+	ev.Register("projects-after-prelude", judged)
 	ev.Register("shared-types", sharedOracle)
 	ev.Register("projects", judged)
 	ev.Register("grid", oracle)
 	ev.Register("spellings", spellingOracle)
+}
+
+// the generated cases after a disturbing prelude on other objects (sut.Disturb), every case from emptied pools
+func TestPropProjectsAfterPreludeAfterPrelude(t *testing.T) {
+	registerAll()
+	ev.Rapid(t, "projects-after-prelude", ev.N(300, 3000), func(t *rapid.T) Case {
+		c := genPCase(t)
+		c.Prelude = rapid.IntRange(1, sut.DisturbMax).Draw(t, "prelude")
+		return c
+	}, judged)
+	sut.Pristine()
 }
 
 func TestPropProjects(t *testing.T) {
